@@ -232,14 +232,28 @@ Definition addresses_from_stream_key (key : list N) : option (list N * list N) :
     end
   end.
 
-(* FirstAddressFromStreamStoreKey:
+(* FirstAddressFromStreamStoreKey (current code, after the fix):
+       addrLen := int(key[0])                  -- int conversion, no wrap-around
+       return key[1 : 1+addrLen]
+   key[0] panics on an empty key. Go checks the upper bound against cap(key);
+   the model answers None as soon as it exceeds len(key) (never the case for a
+   key built by GetStreamKey). *)
+Definition first_address_from_stream_store_key (key : list N) : option (list N) :=
+  match key with
+  | [] => None
+  | addrLen :: _ =>
+    let hi := (1 + N.to_nat addrLen)%nat in
+    if (hi <=? length key)%nat
+    then Some (firstn (hi - 1) (skipn 1 key))
+    else None
+  end.
+
+(* The code before the fix:
        addrLen := key[0]                       -- a byte (uint8)
        return key[1 : 1+addrLen]
    [1+addrLen] is uint8 arithmetic and wraps modulo 256: for addrLen = 255 the
-   upper bound is 0 and key[1:0] panics ("slice bounds out of range [1:0]").
-   Go checks the upper bound against cap(key); the model answers None as soon
-   as it exceeds len(key) (never the case for a key built by GetStreamKey). *)
-Definition first_address_from_stream_store_key (key : list N) : option (list N) :=
+   upper bound is 0 and key[1:0] panics ("slice bounds out of range [1:0]"). *)
+Definition first_address_from_stream_store_key_legacy (key : list N) : option (list N) :=
   match key with
   | [] => None
   | addrLen :: _ =>
@@ -265,6 +279,10 @@ Definition streams_query_addresses (k : list N) : option (list N * list N) :=
 
 Definition receiver_query_sender (receiver k : list N) : option (list N) :=
   first_address_from_stream_store_key (strip_prefix (str_prefix_receiver receiver) k).
+
+(* the same query with the helper as it was before the fix *)
+Definition receiver_query_sender_legacy (receiver k : list N) : option (list N) :=
+  first_address_from_stream_store_key_legacy (strip_prefix (str_prefix_receiver receiver) k).
 
 (* ------------------------------------------------------------------ *)
 (* well-formedness                                                      *)
